@@ -416,6 +416,9 @@ func Polylines(r *Rng, k int, R int64, snapTo Paths) Paths {
 
 // Translate returns a translated deep copy.
 func Translate(ps Paths, dx, dy int64) Paths {
+	if ps == nil {
+		return nil
+	}
 	out := make(Paths, len(ps))
 	for i, p := range ps {
 		if p == nil {
